@@ -46,7 +46,7 @@ def main():
         rc1, o1 = sh('/venv/bin/python _seed/%s/demo.py' % sid, cwd=wt, timeout=600)
         out['demo_with_change_rc'] = rc1
         # (no git stash here: the stash is shared between worktrees, parallel evaluations would swap patches)
-        sh('git checkout -- supp', cwd=wt)
+        sh('git reset -q; git checkout HEAD -- supp', cwd=wt)      # (apply -3 stages what it merges)
         rc2, o2 = sh('/venv/bin/python _seed/%s/demo.py' % sid, cwd=wt, timeout=600)
         rc3, o3 = sh('git apply _seed/%s/patch.diff' % sid + ' || git apply -3 _seed/%s/patch.diff' % sid, cwd=wt)
         out['patch_reapplied'] = rc3 == 0
